@@ -188,6 +188,10 @@ impl<'a> ReMatcher<'a> {
     fn check_preconditions(&self, start: usize) -> bool {
         for precondition in &self.program.preconditions {
             if let Some(fixed_position) = precondition.fixed_position {
+                if fixed_position > self.search.len() {
+                    // nothing can match at a position beyond the input
+                    return false;
+                }
                 let match_ = precondition
                     .operation
                     .matches_iter(self, fixed_position)
